@@ -171,4 +171,627 @@ theorem call_ok (s : CSt) (u : Nat) (c : Call) (hi : Inv s) :
       refine ⟨hi, ?_⟩
       by_cases h0 : cell.owner = 0 <;> simp [LinOK, astep, proj, hc, h0]
 
+theorem astep_fail (t : Table) (k : Kind) (u n o c : Nat) (ht : t n = some (o, c))
+    (hg : goCond k u o = false) : astep t (kindOp k u n) = (t, failRes k) := by
+  cases k <;> simp_all [goCond, kindOp, astep, failRes]
+
+theorem astep_success (t : Table) (k : Kind) (u n o c : Nat) (ht : t n = some (o, c))
+    (hg : goCond k u o = true) :
+    astep t (kindOp k u n) = (upd t n (some (casVal k u o c)), casRes k) := by
+  cases k <;> simp_all [goCond, kindOp, astep, casVal, casRes]
+
+theorem micro_ok (s : CSt) (u : Nat) (hi : Inv s) :
+    Inv (micro s u).st ∧ LinOK (proj s.cells) (proj (micro s u).st.cells) (micro s u).lin := by
+  cases hpc : s.pc u with
+  | idle => simp only [micro, hpc]; exact ⟨hi, rfl⟩
+  | load k n =>
+    obtain ⟨cell, hc⟩ := hi.loadEx u k n hpc
+    by_cases hg : goCond k u cell.owner = true
+    · simp only [micro, hpc, hc, hg, if_true]
+      refine ⟨inv_pc_only hi (by intro k' m h; cases h) ?_, rfl⟩
+      intro k' m v o c h
+      cases h
+      exact ⟨hi.verLt n cell hc, hg, cell, hc, fun _ => ⟨rfl, rfl⟩⟩
+    · have hg' : goCond k u cell.owner = false := by simpa using hg
+      simp only [micro, hpc, hc, hg']
+      refine ⟨inv_pc_only hi (by intro k' m h; cases h) (by intro k' m v o c h; cases h), ?_⟩
+      simp only [LinOK]
+      exact astep_fail (proj s.cells) k u n cell.owner cell.count (by simp [proj, hc]) hg'
+  | cas k n v o c =>
+    obtain ⟨hv, hg, cell, hc, heq⟩ := hi.casOk u k n v o c hpc
+    by_cases hver : cell.ver = v
+    · obtain ⟨ho, hcnt⟩ := heq hver
+      simp only [micro, hpc, hc, hver, if_true]
+      constructor
+      · apply inv_write hi (Or.inl rfl)
+        · intro u' hu' e
+          have hu : (casVal k u o c).1 = u' := e
+          cases k with
+          | «try» =>
+            have : u' = u := by simp [casVal, acqVal] at hu; split at hu <;> simp_all
+            subst this
+            simp only [upd_same, casSets]
+            split
+            · exact (mem_addLock _ _ _).2 (Or.inl rfl)
+            · rename_i h0
+              have : o = u' := by simp [goCond] at hg; rcases hg with h | h; exact absurd h h0; exact h
+              exact hi.owned u' n cell hu' hc (ho.trans this)
+          | unl =>
+            have hou : o = u := by simpa [goCond] using hg
+            simp only [casVal, unlockVal] at hu
+            by_cases hc1 : c > 1
+            · simp only [hc1, if_true] at hu
+              subst hu
+              have hne : c - 1 ≠ 0 := by omega
+              simp only [upd_same, casSets, casVal, unlockVal, hc1, if_true, hne, if_false]
+              exact hi.owned u n cell hu' hc (ho.trans hou)
+            · simp only [hc1, if_false] at hu
+              exact absurd hu.symm hu'
+          | rel =>
+            simp only [casVal] at hu
+            exact absurd hu.symm hu'
+        · intro m hm hmem
+          cases k with
+          | «try» =>
+            simp only [casSets]
+            split
+            · exact (mem_addLock _ _ _).2 (Or.inr hmem)
+            · exact hmem
+          | unl =>
+            simp only [casSets]
+            split
+            · exact (mem_delLock _ _ _).2 ⟨hmem, hm⟩
+            · exact hmem
+          | rel => exact hmem
+      · simp only [LinOK]
+        rw [proj_upd]
+        exact astep_success (proj s.cells) k u n o c (by simp [proj, hc, ho, hcnt]) hg
+    · simp only [micro, hpc, hc, hver, if_false]
+      exact ⟨inv_pc_only hi (by intro k' m h; cases h; exact ⟨cell, hc⟩) (by intro k' m v' o' c' h; cases h), rfl⟩
+
+/-! ## Whole schedules -/
+
+theorem arun_cons (t : Table) (op : Op) (ops : List Op) :
+    arun t (op :: ops) = ((arun (astep t op).1 ops).1, (astep t op).2 :: (arun (astep t op).1 ops).2) := by
+  simp [arun]
+
+theorem cstep_ok (s : CSt) (a : Act) (o : Out) (hi : Inv s) (h : cstep s a = some o) :
+    Inv o.st ∧ LinOK (proj s.cells) (proj o.st.cells) o.lin := by
+  cases a with
+  | call u c =>
+    simp only [cstep] at h
+    split at h
+    · cases h; exact call_ok s u c hi
+    · cases h
+  | step u =>
+    simp only [cstep] at h
+    split at h
+    · cases h
+    · cases h; exact micro_ok s u hi
+
+/-- Forward simulation over a whole schedule: the linearization points, in the order in which they
+were taken, are a legal sequential run of the atomic Spec from the abstraction of the start state
+to the abstraction of the end state, with the very results the calls returned. -/
+theorem crun_linearizable (acts : List Act) (s s' : CSt) (ls : List (Op × R)) (hi : Inv s)
+    (h : crun s acts = some (s', ls)) :
+    Inv s' ∧ arun (proj s.cells) (ls.map (·.1)) = (proj s'.cells, ls.map (·.2)) := by
+  induction acts generalizing s ls with
+  | nil => simp only [crun] at h; cases h; exact ⟨hi, rfl⟩
+  | cons a as ih =>
+    simp only [crun] at h
+    split at h
+    · cases h
+    · rename_i o ho
+      split at h
+      · cases h
+      · rename_i s2 ls2 hr
+        cases h
+        obtain ⟨hi2, hlin⟩ := cstep_ok s a o hi ho
+        obtain ⟨hi3, hrun⟩ := ih o.st ls2 hi2 hr
+        refine ⟨hi3, ?_⟩
+        cases hl : o.lin with
+        | none =>
+          rw [hl] at hlin
+          simp only [LinOK] at hlin
+          simp only [Option.toList, List.nil_append]
+          rw [← hlin]; exact hrun
+        | some x =>
+          obtain ⟨op, r⟩ := x
+          rw [hl] at hlin
+          simp only [LinOK] at hlin
+          simp only [Option.toList, List.cons_append, List.nil_append, List.map_cons]
+          rw [arun_cons, hlin]
+          simp only [hrun]
+
+/-- The primitive a thread in loop `k` on name `n` is executing. -/
+def pcOp (u : Nat) : Pc → Option Op
+  | .idle => none
+  | .load k n => some (kindOp k u n)
+  | .cas k n _ _ _ => some (kindOp k u n)
+
+def callOp (u : Nat) : Call → Op
+  | .tryLock n => .tryAcq u n
+  | .unlock n => .unlock u n
+  | .relOne n => .relOne u n
+  | .getState n => .getState n
+
+/-- A call that completes at a `micro` step is linearized at that very step, as the primitive it
+is executing and with the result it returns; a step that does not complete a call is silent. -/
+theorem micro_completion (s : CSt) (u : Nat) (hi : Inv s) :
+    match (micro s u).done with
+    | some r => ∃ op, pcOp u (s.pc u) = some op ∧ (micro s u).lin = some (op, r)
+    | none => (micro s u).lin = none := by
+  cases hpc : s.pc u with
+  | idle => simp [micro, hpc]
+  | load k n =>
+    obtain ⟨cell, hc⟩ := hi.loadEx u k n hpc
+    by_cases hg : goCond k u cell.owner = true
+    · simp [micro, hpc, hc, hg]
+    · have hg' : goCond k u cell.owner = false := by simpa using hg
+      simp [micro, hpc, hc, hg', pcOp]
+  | cas k n v o c =>
+    obtain ⟨_, _, cell, hc, _⟩ := hi.casOk u k n v o c hpc
+    by_cases hver : cell.ver = v
+    · simp [micro, hpc, hc, hver, pcOp]
+    · simp [micro, hpc, hc, hver]
+
+/-- A call that completes at its first action is linearized there; otherwise the first action is
+silent, except `TryLock`/`Lock`, whose first action is the (separately visible) creation step. -/
+theorem call_completion (s : CSt) (u : Nat) (c : Call) :
+    match (call s u c).done with
+    | some r => (call s u c).lin = some (callOp u c, r)
+    | none => (call s u c).lin = none ∨ ∃ n, c = .tryLock n ∧ (call s u c).lin = some (.ensure n, .unit) := by
+  cases c with
+  | tryLock n => cases hc : s.cells n <;> simp [call, hc]
+  | unlock n => cases hc : s.cells n <;> simp [call, hc, callOp]
+  | relOne n => cases hc : s.cells n <;> simp [call, hc, callOp]
+  | getState n => simp [call, callOp]
+
+/-- After its first action a thread is executing the primitive of its call. -/
+theorem call_pc (s : CSt) (u : Nat) (c : Call) (h : (call s u c).done = none) :
+    pcOp u ((call s u c).st.pc u) = some (callOp u c) := by
+  cases c with
+  | tryLock n => cases hc : s.cells n <;> simp [call, hc, pcOp, callOp, kindOp]
+  | unlock n => cases hc : s.cells n <;> simp_all [call, pcOp, callOp, kindOp]
+  | relOne n => cases hc : s.cells n <;> simp_all [call, pcOp, callOp, kindOp]
+  | getState n => simp [call] at h
+
+/-- A step of a thread keeps the primitive it is executing until the call completes, and never
+touches another thread's program counter. -/
+theorem micro_pc (s : CSt) (u : Nat) (hi : Inv s) :
+    ((micro s u).done = none → pcOp u ((micro s u).st.pc u) = pcOp u (s.pc u)) ∧
+    (∀ u', u' ≠ u → (micro s u).st.pc u' = s.pc u') := by
+  cases hpc : s.pc u with
+  | idle => simp [micro, hpc]
+  | load k n =>
+    obtain ⟨cell, hc⟩ := hi.loadEx u k n hpc
+    by_cases hg : goCond k u cell.owner = true
+    · simp only [micro, hpc, hc, hg, if_true]
+      exact ⟨fun _ => by simp [pcOp], fun u' h => upd_other _ _ _ _ h⟩
+    · have hg' : goCond k u cell.owner = false := by simpa using hg
+      simp only [micro, hpc, hc, hg']
+      exact ⟨fun h => by simp at h, fun u' h => upd_other _ _ _ _ h⟩
+  | cas k n v o c =>
+    obtain ⟨_, _, cell, hc, _⟩ := hi.casOk u k n v o c hpc
+    by_cases hver : cell.ver = v
+    · simp only [micro, hpc, hc, hver, if_true]
+      exact ⟨fun h => by simp at h, fun u' h => upd_other _ _ _ _ h⟩
+    · simp only [micro, hpc, hc, hver, if_false]
+      exact ⟨fun _ => by simp [pcOp], fun u' h => upd_other _ _ _ _ h⟩
+
+/-! ## Laws of the atomic Spec -/
+
+def Op.session : Op → Option Nat
+  | .ensure _ => none
+  | .tryAcq u _ => some u
+  | .unlock u _ => some u
+  | .relOne u _ => some u
+  | .getState _ => none
+
+theorem owner_upd (t : Table) (n m o c : Nat) :
+    owner (upd t n (some (o, c))) m = if m = n then o else owner t m := by
+  by_cases h : m = n <;> simp [owner, upd, h]
+
+theorem count_upd (t : Table) (n m o c : Nat) :
+    count (upd t n (some (o, c))) m = if m = n then c else count t m := by
+  by_cases h : m = n <;> simp [count, upd, h]
+
+/-- `n` times the same primitive. -/
+def rep (op : Op) : Nat → Table → Table
+  | 0, t => t
+  | k + 1, t => rep op k (astep t op).1
+
+/-- Codes of the regenerated shape facts (see `facts_match`). -/
+def modelAcquireValues : List String := ["ownedLock{userId, 1}", "ownedLock{userId, currLock.Count + 1}"]
+def modelUnlockValues : List String := ["ownedLock{}", "ownedLock{userId, currLock.Count - 1}"]
+def modelReleaseAllValues : List String := ["ownedLock{}"]
+
 end Gms.Locks
+
+/-! # C38 — the property theorems -/
+
+namespace Gms.C38
+open Gms.Locks
+
+/-- **Linearizability (all schedules, any number of sessions, names and steps).** Take any schedule
+of the interleaved Impl model from the initial state — calls `TryLock`/`Lock` attempt, `Unlock`, one
+`ReleaseAll` iteration and `GetLockState` by any sessions, each advancing by its own atomic steps
+(map lookup/creation, load, CAS, retry) in any interleaving. Then the primitives, taken in the order of
+their linearization points (the successful CAS, or the load on which a failing / read-only call
+decides), form a legal *sequential* run of the atomic Spec `astep` from the empty table, ending in
+the abstraction of the final cells, with exactly the results the calls returned. -/
+theorem linearizable (acts : List Act) (s' : CSt) (ls : List (Op × R))
+    (h : crun CSt.init acts = some (s', ls)) :
+    arun Table.empty (ls.map (·.1)) = (proj s'.cells, ls.map (·.2)) :=
+  (crun_linearizable acts CSt.init s' ls inv_init h).2
+
+/-- The invariant (versions fresh, a pending CAS carries what its version stood for, every owned
+name is in the owner's session set) holds in every reachable state. -/
+theorem reachable_inv (acts : List Act) (s' : CSt) (ls : List (Op × R))
+    (h : crun CSt.init acts = some (s', ls)) : Inv s' :=
+  (crun_linearizable acts CSt.init s' ls inv_init h).1
+
+/-- The linearization point of a call lies inside the call: it is taken at one of the call's own
+steps — the one that completes it — as the primitive of that call and with the returned result;
+all other steps of the call are silent (except the creation step of `TryLock`, a primitive of its
+own). -/
+theorem lin_point_at_completion (s : CSt) (u : Nat) (hi : Inv s) :
+    match (micro s u).done with
+    | some r => ∃ op, pcOp u (s.pc u) = some op ∧ (micro s u).lin = some (op, r)
+    | none => (micro s u).lin = none :=
+  micro_completion s u hi
+
+theorem lin_point_at_completion_first (s : CSt) (u : Nat) (c : Call) :
+    match (call s u c).done with
+    | some r => (call s u c).lin = some (callOp u c, r)
+    | none => (call s u c).lin = none ∨ ∃ n, c = .tryLock n ∧ (call s u c).lin = some (.ensure n, .unit) :=
+  call_completion s u c
+
+/-- Non-vacuity: two sessions race for lock 7; session 2 loads the free record, session 1 loads and
+wins the CAS, session 2's CAS fails, it reloads and returns false; session 1 re-enters, unlocks
+twice; session 2 then gets the lock. -/
+def sampleSchedule : List Act :=
+  [.call 1 (.tryLock 7), .call 2 (.tryLock 7), .step 2, .step 1, .step 1, .step 2, .step 2,
+   .call 1 (.tryLock 7), .step 1, .step 1, .call 2 (.getState 7), .call 1 (.unlock 7), .step 1, .step 1,
+   .call 1 (.unlock 7), .step 1, .step 1, .call 2 (.tryLock 7), .step 2, .step 2, .call 1 (.unlock 7), .step 1]
+
+example : (crun CSt.init sampleSchedule).map (·.2) = some
+    [(.ensure 7, .unit), (.ensure 7, .unit), (.tryAcq 1 7, .acquired true), (.tryAcq 2 7, .acquired false),
+     (.ensure 7, .unit), (.tryAcq 1 7, .acquired true), (.getState 7, .inUse 1), (.unlock 1 7, .ok),
+     (.unlock 1 7, .ok), (.ensure 7, .unit), (.tryAcq 2 7, .acquired true), (.unlock 1 7, .errNotOwned)] := by
+  decide
+
+/-! ## Laws of the atomic Spec (sessions with a non-zero id) -/
+
+/-- **Mutual exclusion.** A lock held by `u` cannot be acquired by anybody else. -/
+theorem mutex_partial (t t' : Table) (u v n : Nat) (hu : u ≠ 0) (ho : owner t n = u)
+    (h : astep t (.tryAcq v n) = (t', .acquired true)) : v = u := by
+  simp only [astep] at h
+  cases ht : t n with
+  | none => simp [ht] at h
+  | some p =>
+    obtain ⟨o, c⟩ := p
+    simp only [owner, ht] at ho
+    subst ho
+    simp only [ht] at h
+    split at h
+    · rename_i hc
+      rcases hc with hc | hc
+      · exact absurd hc hu
+      · exact hc.symm
+    · simp at h
+
+/-- **Nobody but the holder changes a held lock** (in particular `RELEASE_LOCK` and
+`RELEASE_ALL_LOCKS` by a non-holder have no effect): owner and count are untouched by every
+primitive of every other session. -/
+theorem holder_stable (t : Table) (op : Op) (u n : Nat) (hu : u ≠ 0) (ho : owner t n = u)
+    (hs : op.session ≠ some u) : (astep t op).1 n = t n := by
+  cases op with
+  | ensure m =>
+    simp only [astep]
+    cases hm : t m with
+    | none =>
+      have : n ≠ m := by intro e; subst e; simp [owner, hm] at ho; exact hu ho.symm
+      simp [upd, this]
+    | some _ => rfl
+  | getState m =>
+    simp only [astep]
+    cases hm : t m with
+    | none => rfl
+    | some p => obtain ⟨o, c⟩ := p; by_cases h0 : o = 0 <;> simp [h0]
+  | tryAcq v m =>
+    have hv : v ≠ u := fun e => hs (by simp [Op.session, e])
+    simp only [astep]
+    cases hm : t m with
+    | none => rfl
+    | some p =>
+      obtain ⟨o, c⟩ := p
+      simp only []
+      split
+      · rename_i hc
+        have : n ≠ m := by
+          intro e; subst e
+          simp [owner, hm] at ho
+          rcases hc with hc | hc
+          · exact hu (ho.symm.trans hc)
+          · exact hv (hc.symm.trans ho)
+        simp [upd, this]
+      · rfl
+  | unlock v m =>
+    have hv : v ≠ u := fun e => hs (by simp [Op.session, e])
+    simp only [astep]
+    cases hm : t m with
+    | none => rfl
+    | some p =>
+      obtain ⟨o, c⟩ := p
+      simp only []
+      split
+      · rfl
+      · rename_i hc
+        have hov : o = v := Classical.not_not.mp hc
+        have : n ≠ m := by
+          intro e; subst e
+          simp [owner, hm] at ho
+          exact hv (hov.symm.trans ho)
+        simp [upd, this]
+  | relOne v m =>
+    have hv : v ≠ u := fun e => hs (by simp [Op.session, e])
+    simp only [astep]
+    cases hm : t m with
+    | none => rfl
+    | some p =>
+      obtain ⟨o, c⟩ := p
+      simp only []
+      split
+      · rfl
+      · rename_i hc
+        have hov : o = v := Classical.not_not.mp hc
+        have : n ≠ m := by
+          intro e; subst e
+          simp [owner, hm] at ho
+          exact hv (hov.symm.trans ho)
+        simp [upd, this]
+
+/-- `RELEASE_LOCK` by a non-holder fails and changes nothing. -/
+theorem release_by_nonholder_noop (t : Table) (u n : Nat) (h : owner t n ≠ u) (hex : (t n).isSome) :
+    astep t (.unlock u n) = (t, .errNotOwned) := by
+  cases ht : t n with
+  | none => simp [ht] at hex
+  | some p =>
+    obtain ⟨o, c⟩ := p
+    simp only [owner, ht] at h
+    simp [astep, ht, h]
+
+/-- `GET_LOCK` succeeds exactly when the lock is free or already held by the caller. -/
+theorem tryAcq_succeeds_iff (t : Table) (u n : Nat) (hex : (t n).isSome) :
+    (astep t (.tryAcq u n)).2 = .acquired true ↔ (owner t n = 0 ∨ owner t n = u) := by
+  cases ht : t n with
+  | none => simp [ht] at hex
+  | some p =>
+    obtain ⟨o, c⟩ := p
+    simp only [astep, ht, owner]
+    by_cases hc : o = 0 ∨ o = u <;> simp [hc]
+
+/-- **Re-entrancy.** From a free lock, `k+1` acquisitions by `u` give count `k+1` … -/
+theorem reentrant_acquire (t : Table) (u n c0 k : Nat) (hu : u ≠ 0) (ht : t n = some (0, c0)) :
+    rep (.tryAcq u n) (k + 1) t n = some (u, k + 1) := by
+  have hrep : ∀ j (t : Table) c, t n = some (u, c) → rep (.tryAcq u n) j t n = some (u, c + j) := by
+    intro j
+    induction j with
+    | zero => intro t c h; simpa [rep] using h
+    | succ j ih =>
+      intro t c h
+      simp only [rep]
+      have : (astep t (.tryAcq u n)).1 n = some (u, c + 1) := by simp [astep, h, acqVal, hu]
+      rw [ih _ (c + 1) this]
+      congr 2; omega
+  have step1 : (astep t (.tryAcq u n)).1 n = some (u, 1) := by simp [astep, ht, acqVal]
+  simp only [rep]
+  rw [hrep k _ 1 step1]
+  congr 2; omega
+
+/-- … `j < c` releases leave the lock with the holder at count `c - j` … -/
+theorem reentrant_release_partial (u n : Nat) (j : Nat) : ∀ (t : Table) (c : Nat),
+    t n = some (u, c) → j < c → rep (.unlock u n) j t n = some (u, c - j) := by
+  induction j with
+  | zero => intro t c h _; simpa [rep] using h
+  | succ j ih =>
+    intro t c h hj
+    simp only [rep]
+    have hc : c > 1 := by omega
+    have : (astep t (.unlock u n)).1 n = some (u, c - 1) := by simp [astep, h, unlockVal, hc]
+    rw [ih _ (c - 1) this (by omega)]
+    congr 2; omega
+
+/-- … and exactly `c` releases free it. -/
+theorem reentrant_release_full (u n : Nat) (c : Nat) : ∀ (t : Table),
+    t n = some (u, c + 1) → rep (.unlock u n) (c + 1) t n = some (0, 0) := by
+  induction c with
+  | zero => intro t h; simp [rep, astep, h, unlockVal]
+  | succ c ih =>
+    intro t h
+    simp only [rep]
+    have : (astep t (.unlock u n)).1 n = some (u, c + 1) := by simp [astep, h, unlockVal]
+    exact ih _ this
+
+example : rep (.unlock 3 1) 2 (rep (.tryAcq 3 1) 2 (astep Table.empty (.ensure 1)).1) 1 = some (0, 0) := by decide
+example : rep (.unlock 3 1) 1 (rep (.tryAcq 3 1) 2 (astep Table.empty (.ensure 1)).1) 1 = some (3, 1) := by decide
+
+/-- `IS_USED_LOCK` / `IS_FREE_LOCK` report the true holder. -/
+theorem state_reports_owner (t : Table) (n : Nat) :
+    (astep t (.getState n)).1 = t ∧
+    (astep t (.getState n)).2 =
+      (match t n with
+       | none => R.notExist
+       | some (o, _) => if o = 0 then R.free else R.inUse o) := by
+  cases ht : t n with
+  | none => simp [astep, ht]
+  | some p => obtain ⟨o, c⟩ := p; by_cases h0 : o = 0 <;> simp [astep, ht, h0]
+
+/-- One `ReleaseAll` iteration on `n` leaves `n` not held by `u`. -/
+theorem relOne_releases (t : Table) (u n : Nat) (hu : u ≠ 0) : owner (astep t (.relOne u n)).1 n ≠ u := by
+  cases ht : t n with
+  | none => simp [astep, ht, owner]; exact fun e => hu e.symm
+  | some p =>
+    obtain ⟨o, c⟩ := p
+    by_cases h : o = u
+    · simp [astep, ht, h, owner, upd]; exact fun e => hu e.symm
+    · simp [astep, ht, h, owner]
+
+/-- Only an acquisition by `u` itself makes `u` the holder of `n`. -/
+theorem released_stays_released (t : Table) (op : Op) (u n : Nat) (hu : u ≠ 0) (ho : owner t n ≠ u)
+    (hop : op ≠ .tryAcq u n) : owner (astep t op).1 n ≠ u := by
+  cases op with
+  | ensure m =>
+    simp only [astep]
+    cases hm : t m with
+    | none => simp only []; rw [owner_upd]; split; exact fun e => hu e.symm; exact ho
+    | some _ => exact ho
+  | getState m =>
+    simp only [astep]
+    cases hm : t m with
+    | none => exact ho
+    | some p => obtain ⟨o, c⟩ := p; by_cases h0 : o = 0 <;> simp [h0] <;> exact ho
+  | tryAcq v m =>
+    simp only [astep]
+    cases hm : t m with
+    | none => exact ho
+    | some p =>
+      obtain ⟨o, c⟩ := p
+      simp only []
+      split
+      · rw [show acqVal v o c = ((acqVal v o c).1, (acqVal v o c).2) from rfl, owner_upd]
+        split
+        · rename_i _ e
+          subst e
+          have : (acqVal v o c).1 = v := by simp [acqVal]; split <;> rfl
+          rw [this]
+          intro e; subst e; exact hop rfl
+        · exact ho
+      · exact ho
+  | unlock v m =>
+    simp only [astep]
+    cases hm : t m with
+    | none => exact ho
+    | some p =>
+      obtain ⟨o, c⟩ := p
+      simp only []
+      split
+      · exact ho
+      · rename_i hc
+        have hov : o = v := Classical.not_not.mp hc
+        rw [show unlockVal v c = ((unlockVal v c).1, (unlockVal v c).2) from rfl, owner_upd]
+        split
+        · rename_i e
+          subst e
+          have hno : v ≠ u := by intro e; subst e; simp [owner, hm] at ho; exact ho hov
+          simp only [unlockVal]
+          split
+          · exact hno
+          · exact fun e => hu e.symm
+        · exact ho
+  | relOne v m =>
+    simp only [astep]
+    cases hm : t m with
+    | none => exact ho
+    | some p =>
+      obtain ⟨o, c⟩ := p
+      simp only []
+      split
+      · exact ho
+      · rw [owner_upd]; split; exact fun e => hu e.symm; exact ho
+
+/-- **RELEASE_ALL_LOCKS releases every lock of the session, under any interleaving.** In a
+sequential run of primitives (by the linearizability theorem: in any concurrent execution) that
+contains the `ReleaseAll` iteration for `n` and in which `u` does not acquire `n` (the session is
+busy with `ReleaseAll`), `n` is not held by `u` at the end — whatever the other sessions do in
+between. By `reachable_inv` (`Inv.owned`) the iterations cover every name `u` holds. -/
+theorem releaseAll_releases_interleaved (ops : List Op) (t : Table) (u n : Nat) (hu : u ≠ 0)
+    (hno : ∀ op ∈ ops, op ≠ .tryAcq u n) (hrel : Op.relOne u n ∈ ops) :
+    owner (arun t ops).1 n ≠ u := by
+  have stay : ∀ (ops : List Op) (t : Table), (∀ op ∈ ops, op ≠ .tryAcq u n) → owner t n ≠ u →
+      owner (arun t ops).1 n ≠ u := by
+    intro ops
+    induction ops with
+    | nil => intro t _ h; simpa [arun] using h
+    | cons op ops ih =>
+      intro t hno h
+      rw [arun_cons]
+      exact ih _ (fun o ho => hno o (List.mem_cons_of_mem _ ho))
+        (released_stays_released t op u n hu h (hno op List.mem_cons_self))
+  induction ops generalizing t with
+  | nil => cases hrel
+  | cons op ops ih =>
+    rw [arun_cons]
+    simp only [List.mem_cons] at hrel
+    rcases hrel with hrel | hrel
+    · subst hrel
+      exact stay ops _ (fun o ho => hno o (List.mem_cons_of_mem _ ho)) (relOne_releases t u n hu)
+    · exact ih _ (fun o ho => hno o (List.mem_cons_of_mem _ ho)) hrel
+
+/-- The names a session holds are all in its lock set — in every reachable state of the
+concurrent model — so `ReleaseAll`'s iteration over the set visits every held lock. -/
+theorem session_set_covers_owned (acts : List Act) (s' : CSt) (ls : List (Op × R))
+    (h : crun CSt.init acts = some (s', ls)) (u n : Nat) (hu : u ≠ 0) (ho : owner (proj s'.cells) n = u) :
+    n ∈ s'.sets u := by
+  have hi := reachable_inv acts s' ls h
+  cases hc : s'.cells n with
+  | none => simp [owner, proj, hc] at ho; exact absurd ho.symm hu
+  | some cell =>
+    simp [owner, proj, hc] at ho
+    exact hi.owned u n cell hu hc ho
+
+/-- The set may be larger than what is held: `ReleaseAll` does not call `DelLock` (DESIGN F-C38-a;
+harmless for the results: the extra names fail the owner test of later iterations). -/
+example : ((seqReleaseAll (seqCall CSt.init 4 (.tryLock 9)).1 4).1.sets 4 = [9]) ∧
+    (proj (seqReleaseAll (seqCall CSt.init 4 (.tryLock 9)).1 4).1.cells 9 = some (0, 0)) := by decide
+
+/-- `ReleaseAll` is a *sequence* of linearizable iterations, not one atomic step: session 1 holds
+8 and 9, releases 8, session 2 sees 8 free and then 9 still held, then 9 is released. (No single
+point between the two reads of session 2 can be "the" release of both.) The Spec therefore has the
+per-name primitive `relOne`, and the property's "behave like some sequential order" is proved for
+primitives. -/
+example : (crun CSt.init
+    [.call 1 (.tryLock 8), .step 1, .step 1, .call 1 (.tryLock 9), .step 1, .step 1,
+     .call 1 (.relOne 8), .step 1, .step 1, .call 2 (.getState 8), .call 2 (.getState 9),
+     .call 1 (.relOne 9), .step 1, .step 1]).map (fun x => x.2.drop 4) = some
+    [(.relOne 1 8, .released 1), (.getState 8, .free), (.getState 9, .inUse 1), (.relOne 1 9, .released 1)] := by
+  decide
+
+/-! ## Finding on the unchanged tree: session id 0 -/
+
+/-- `Owner == 0` is the code's encoding of "free", so a session whose id is 0 (API level:
+only `NewBaseSessionWithClientServer(…, 0)` makes one; `NewBaseSession` numbers from 2, the server from 1) never excludes anybody: it "acquires"
+the lock, the record stays free, and another session acquires it as well. The full statement
+(`mutex_partial` without `u ≠ 0`) is false. -/
+theorem finding_session_id_zero :
+    ∃ ops, (arun Table.empty ops).2 =
+      [.unit, .acquired true, .free, .unit, .acquired true] ∧
+      ops = [.ensure 1, .tryAcq 0 1, .getState 1, .ensure 1, .tryAcq 5 1] :=
+  ⟨_, by decide, rfl⟩
+
+/-- The same through the interleaved Impl model, run sequentially. -/
+example : (seqCall (seqCall CSt.init 0 (.tryLock 1)).1 5 (.tryLock 1)).2 = some (.acquired true) ∧
+    (seqCall CSt.init 0 (.tryLock 1)).2 = some (.acquired true) := by decide
+
+/-! ## Regenerated facts -/
+
+/-- The records installed by the three CAS sites, the number of CAS/load sites per function, the
+session-set calls per function (`ReleaseAll` has no `DelLock`), and the `LockState` numbering are
+what the model transliterates. -/
+theorem facts_match :
+    Generated.C38.acquireValues = modelAcquireValues ∧
+    Generated.C38.unlockValues = modelUnlockValues ∧
+    Generated.C38.releaseAllValues = modelReleaseAllValues ∧
+    Generated.C38.casSites = [("ReleaseAll", 1), ("Unlock", 1), ("tryLock", 2)] ∧
+    Generated.C38.loadSites = [("GetLockState", 1), ("ReleaseAll", 1), ("Unlock", 1), ("tryLock", 1)] ∧
+    Generated.C38.sessionSetCalls = [("ReleaseAll", "IterLocks"), ("Unlock", "DelLock"), ("tryLock", "AddLock")] ∧
+    Generated.C38.conditions =
+      [("GetLockState", "currLock.Owner == 0"),
+       ("ReleaseAll", "currLock.Owner != int64(userId)"), ("Unlock", "currLock.Owner != userId"),
+       ("Unlock", "currLock.Count > 1"), ("Unlock", "newVal.Count == 0"),
+       ("tryLock", "currLock.Owner == 0"), ("tryLock", "currLock.Owner == userId")] ∧
+    Generated.C38.lockStates = [("LockDoesNotExist", 0), ("LockInUse", 1), ("LockFree", 2)] := by
+  decide
+
+end Gms.C38
